@@ -21,7 +21,7 @@ MUTANTS = [
     # ---------------- C07
     M("c07-scale-not-transposed", "C07", "break", [(MM, "torch.matmul(activations, weights.t()) * output_scales.t()", "torch.matmul(activations, weights.t()) * output_scales")], "C07.R1"),
     M("c07-weights-not-transposed", "C07", "break", [(MM, "torch.matmul(activations, weights.t())", "torch.matmul(activations, weights)")], "C07.R1"),
-    M("c07-intmm-view", "C07", "break", [(MM, "out_data = torch._int_mm(activations.view(-1, in_features), weights)", "out_data = torch._int_mm(activations.view(-1, out_features), weights)")], "C07.R1"),
+    M("c07-intmm-view", "C07", "break", [(MM, "out_data = torch._int_mm(activations.reshape(-1, in_features), weights)", "out_data = torch._int_mm(activations.reshape(-1, out_features), weights)")], "C07.R1"),
     M("c07-intmm-scale", "C07", "break", [(MM, "out_data.to(torch.float32) * output_scales.t()", "out_data.to(torch.float32) * output_scales")], "C07.R1"),
     M("c07-intmm-no-scale", "C07", "break", [(MM, "    fp32_output = out_data.to(torch.float32) * output_scales.t()\n", "    fp32_output = out_data.to(torch.float32)\n")], "C07.R2"),
     M("c07-int8pack-output-shape", "C07", "break", [(MM, "        output_shape = activations.shape[:-1] + (out_features,)\n        out_data = torch._weight_int8pack_mm", "        output_shape = activations.shape[:-1] + (in_features,)\n        out_data = torch._weight_int8pack_mm")], "C07.R1"),
@@ -82,7 +82,7 @@ MUTANTS = [
     M("c11-affine-backward-arity", "C11", "break", [(AFF, "        return gO, None, None, None, None, None", "        return gO, None, None")], "C11.R1"),
     M("c11-dequantize-direct", "C11", "break", [(QB, "        return QBytesDequantizer.apply(self)", "        return QBytesDequantizer.forward(None, self)")], "C11.R1"),
     M("c11-bias-sum0", "C11", "break", [(FUNC, "            dim = tuple(range(gO.ndim - 1))", "            dim = (0,)")], "C11.R2"),
-    M("c11-weight-grad-no-t", "C11", "break", [(FUNC, "gO.view(-1, out_features).t()", "gO.view(-1, out_features)")], "C11.R2"),
+    M("c11-weight-grad-no-t", "C11", "break", [(FUNC, "gO.reshape(-1, out_features).t()", "gO.reshape(-1, out_features)")], "C11.R2"),
     M("c11-input-grad-t", "C11", "break", [(FUNC, "            input_gO = torch.matmul(gO, other)", "            input_gO = torch.matmul(gO, other.t())")], "C11.R2"),
     M("c11-needs-grad-swapped", "C11", "break", [(FUNC, "        if ctx.needs_input_grad[1]:", "        if ctx.needs_input_grad[2]:")], "C11.R2"),
     M("c11-return-order", "C11", "break", [(FUNC, "        return input_gO, other_gO, bias_gO", "        return other_gO, input_gO, bias_gO")], "C11.R2"),
@@ -92,5 +92,5 @@ MUTANTS = [
     M("c11-freeze-requires-grad", "C11", "break", [(QMOD, "            self.weight = torch.nn.Parameter(qweight, requires_grad=False)", "            self.weight = torch.nn.Parameter(qweight)")], "C11.R4"),
     M("c11-linear-dispatch-swapped", "C11", "break", [(FUNC, "    return QTensorLinear.apply(input, other, bias)", "    return QTensorLinear.apply(other, input, bias)")], "C11.R5"),
     M("c11-refactor-bias-dims", "C11", "refactor", [(FUNC, "            dim = tuple(range(gO.ndim - 1))\n            bias_gO = gO.sum(dim)", "            bias_gO = gO.sum(tuple(range(gO.ndim - 1)))")]),
-    M("c11-refactor-weight-grad", "C11", "refactor", [(FUNC, "other_gO = torch.matmul(gO.view(-1, out_features).t(), input.view(-1, in_features))", "g2 = gO.view(-1, out_features)\n            i2 = input.view(-1, in_features)\n            other_gO = torch.matmul(g2.t(), i2)")]),
+    M("c11-refactor-weight-grad", "C11", "refactor", [(FUNC, "other_gO = torch.matmul(gO.reshape(-1, out_features).t(), input.reshape(-1, in_features))", "g2 = gO.reshape(-1, out_features)\n            i2 = input.reshape(-1, in_features)\n            other_gO = torch.matmul(g2.t(), i2)")]),
 ]
